@@ -10,6 +10,7 @@
    [EDisp i v] in the log: the receive loop took an rpc_result / rpc_error for req_msg_id = i carrying v. *)
 From Coq Require Import ZArith List Bool.
 From MTV Require Import Client.Model Client.StepLemmas Client.SeqNo Client.Routing Client.Origin Client.Examples.
+From MTV Require Import Client.Live Client.LiveInv Client.Salt Client.Alive Client.LiveOrigin.
 Import ListNotations.
 Open Scope Z_scope.
 
@@ -39,6 +40,58 @@ Theorem C09_results_from_server : forall ls s req v, run init ls = Some s -> In 
   exists g sid seq b, In (LSrv g) ls /\ inside (sid, seq, b) g /\ result_of b = Some (req, v).
 Proof. exact origin. Qed.
 Print Assumptions C09_results_from_server.
+
+(* ---- the same over the LIVE model ---------------------------------------------------------------
+   [step] of Client/Model.v is the client as the C09/C10 repairs left it: a message the receive loop cannot
+   handle (undecodable body, rpc_result for an id that is not in the table - a repeated or late answer, an
+   answer for an id never used -, bad_msg_notification) still ends it (RDead: the deliberate panics), so on
+   such histories C09_routing holds there with nothing more returned.  The code has since been repaired
+   (C11/C16): such a message is reported, acknowledged and skipped.  [step2] / [run2] of Client/Live.v is
+   that client (it also has salt rotation, reconnects, the Warnings channel); it is the model the recorded
+   traces of ./check C09 are replayed through, and the statement that matters for the code is this one:
+   for every configuration and every history - duplicates, late and unsolicited results included -
+   the receive loop is never dead, and every call that returned got the payload of a result received for
+   the newest msg id its request was written under (FIRST delivery: the table entry is gone afterwards,
+   so a second result for the same id reaches nobody: NoDup), typed if it is a vector. *)
+Theorem C09_routing_live : forall c ls s, run2 (init2 c) ls = Some s ->
+  rx (base s) <> RDead /\
+  (forall t k i r, In (t, k, i, r) (rets (base s)) ->
+     exists h v,
+       sent_req (base s) i t k h /\
+       (forall t' k' h', sent_req (base s) i t' k' h' -> t' = t /\ k' = k /\ h' = h) /\
+       (forall w, In w (wire (base s)) -> on_call w t k -> w_id w <= i) /\
+       In (EDisp i v) (elog (base s)) /\ ret_of v = Some r /\
+       (vec_val v = true -> h = true) /\
+       ~ rejected (base s) i) /\
+  NoDup (map ret_id (rets (base s))) /\
+  NoDup (map ret_call (rets (base s))).
+Proof.
+  intros c ls s H. split; [exact (proj1 (alive c ls s H))|exact (routing2 c ls s H)].
+Qed.
+Print Assumptions C09_routing_live.
+
+Theorem C09_results_from_server_live : forall c ls s req v, run2 (init2 c) ls = Some s ->
+  In (EDisp req v) (elog (base s)) -> v <> VRetry ->
+  exists g sid seq b, In (L1 (LSrv g)) ls /\ inside (sid, seq, b) g /\ result_of b = Some (req, v).
+Proof.
+  intros c ls s req v H. destruct (origin2 c ls s H) as (_ & _ & _ & X). apply X.
+Qed.
+Print Assumptions C09_results_from_server_live.
+
+(* Non-vacuity of the live statement: the server answers request 40 twice (payloads 8 and 9); the call returns
+   the first, the second is counted as failed, ACKNOWLEDGED (server msg ids 1 and 5) and the loop is back at its read *)
+Definition ex_duplicate : list label2 := map L1 [
+  LCall 0 false; LStep (ACaller 0) 10; LStep (ACaller 0) 0; LStep (ACaller 0) 0;
+  LSrv (1, 1, BResult 40 false KObj 8);
+  LStep ARx 0; LStep ARx 0; LStep ARx 0; LStep ARx 11; LStep ARx 0; LStep ARx 0; LStep ARx 0;
+  LSrv (5, 3, BResult 40 false KObj 9);
+  LStep ARx 0; LStep ARx 0; LStep ARx 12; LStep ARx 0; LStep ARx 0; LStep ARx 0].
+
+Example C09_example_duplicate :
+  option_map (fun s => (rets (base s), rx (base s), failed s, map w_kind (wire_out (elog (base s)))))
+             (run2 (init2 {| cf_warn := WNil; cf_handler := false; cf_keyed := true |}) ex_duplicate)
+  = Some ([(0%nat, 1%nat, 40, RetVal KObj 8)], RRead, 1%nat, [WAck 5; WAck 1; WReq 0 1 false]).
+Proof. vm_compute. reflexivity. Qed.
 
 (* Non-vacuity: in [ex_completes] both calls return, each its own payload, the vector one typed. *)
 Example C09_example : exists s, run init ex_labels = Some s /\
